@@ -470,6 +470,35 @@ func (vlog *valueLog) iteratorCount() int {
 	return int(atomic.LoadInt32(&vlog.numActiveIterators))
 }
 
+// incrIteratorCount registers an open iterator: while there is one, GC must not remove a
+// segment, because the iterator's snapshot may still hold pointers into it.
+func (vlog *valueLog) incrIteratorCount() {
+	if vlog == nil {
+		return
+	}
+	atomic.AddInt32(&vlog.numActiveIterators, 1)
+}
+
+// decrIteratorCount unregisters an iterator; the last one to go removes the segments whose
+// deletion GC had to postpone.
+func (vlog *valueLog) decrIteratorCount() {
+	if vlog == nil {
+		return
+	}
+	if atomic.AddInt32(&vlog.numActiveIterators, -1) != 0 {
+		return
+	}
+	vlog.filesToDeleteLock.Lock()
+	pending := vlog.filesToBeDeleted
+	vlog.filesToBeDeleted = nil
+	vlog.filesToDeleteLock.Unlock()
+	for _, id := range pending {
+		if err := vlog.removeValueLogFile(id.Bucket, id.FileID); err != nil {
+			_ = utils.Err(fmt.Errorf("value log deferred delete fid %d (bucket %d): %v", id.FileID, id.Bucket, err))
+		}
+	}
+}
+
 func (vlog *valueLog) filterPendingDeletes(fids []manifest.ValueLogID) []manifest.ValueLogID {
 	vlog.filesToDeleteLock.Lock()
 	defer vlog.filesToDeleteLock.Unlock()
